@@ -617,6 +617,14 @@ class DefaultModelInputConverter(ModelInputConverter):
     spec = self.onehot_encoder.output_spec
     self._output_spec = spec
     self._should_clip = should_clip
+    # When scaling and clipping are both on, out-of-range array values are
+    # clipped in the scaled space first: un-scaling a far out-of-range value can
+    # overflow (exp, or a huge range) and would otherwise drop the parameter.
+    self._clip_in_scaled_space = (
+        scale
+        and should_clip
+        and self._getter_spec.type == NumpyArraySpecType.CONTINUOUS
+    )
 
   def convert(self, trials: Sequence[pyvizier.TrialSuggestion]) -> np.ndarray:
     """Returns an array of shape [len(trials), output_spec.num_dimensions].
@@ -702,7 +710,11 @@ class DefaultModelInputConverter(ModelInputConverter):
       self, array: np.ndarray
   ) -> List[Optional[pyvizier.ParameterValue]]:
     """Convert and clip to the nearest feasible parameter values."""
-    array = self.scaler.backward_fn(self.onehot_encoder.backward_fn(array))
+    array = self.onehot_encoder.backward_fn(array)
+    if self._clip_in_scaled_space:
+      low, high = self.scaler.output_spec.bounds
+      array = np.where(np.isfinite(array), np.clip(array, low, high), array)
+    array = self.scaler.backward_fn(array)
     return [self._to_parameter_value(v) for v in list(array.flatten())]
 
   def _convert_index(self, trial: pyvizier.TrialSuggestion):
